@@ -10,12 +10,17 @@ using intervals_t = ikos::interval_domain<z_number, varname_t>;
 SIM_REGISTER_DOMAIN(intervals, intervals_t, "intervals",
                     CAP_EXACT_EXPORT | CAP_BACKWARD | CAP_NONREL | CAP_CORE)
 using constants_t = constant_domain<z_number, varname_t>;
-SIM_REGISTER_DOMAIN(constants, constants_t, "constants", CAP_NONREL | CAP_CORE | CAP_FINITE)
+SIM_REGISTER_DOMAIN(constants, constants_t, "constants",
+                    CAP_NONREL | CAP_CORE | CAP_FINITE)
 using signs_t = sign_domain<z_number, varname_t>;
-SIM_REGISTER_DOMAIN(signs, signs_t, "signs", CAP_NONREL | CAP_CORE | CAP_FINITE)
+SIM_REGISTER_DOMAIN(signs, signs_t, "signs",
+                    CAP_NONREL | CAP_CORE | CAP_FINITE)
 using sign_constants_t = sign_constant_domain<z_number, varname_t>;
-SIM_REGISTER_DOMAIN(sign_constants, sign_constants_t, "sign_constants", CAP_NONREL | CAP_FINITE)
+SIM_REGISTER_DOMAIN(sign_constants, sign_constants_t, "sign_constants",
+                    CAP_NONREL | CAP_FINITE)
 using congruences_t = ikos::congruence_domain<z_number, varname_t>;
-SIM_REGISTER_DOMAIN(congruences, congruences_t, "congruences", CAP_NONREL | CAP_CORE)
+SIM_REGISTER_DOMAIN(congruences, congruences_t, "congruences",
+                    CAP_NONREL | CAP_CORE | CAP_BACKWARD)
 using ric_t = numerical_congruence_domain<intervals_t>;
-SIM_REGISTER_DOMAIN(ric, ric_t, "ric", CAP_NONREL)
+SIM_REGISTER_DOMAIN(ric, ric_t, "ric",
+                    CAP_NONREL | CAP_BACKWARD)
